@@ -94,6 +94,7 @@ def _worker_init(base):
     from . import ops
 
     sys.stdout = ops.SINK
+    ops.install_unraisable_hook()
 
 
 def _run_chunk_inner(pid, base_seed, idxs, tier):
